@@ -187,6 +187,18 @@ Json::Value baseline(uint64_t seed) {
     rs["cgroup"] = "work/*";
     cfg["rulesets"].append(rs);
   }
+  // every kill plugin once more with `work/*` as its only target and a detector that fires on every tick: under
+  // the `vanish` fault the plugin runs while every configured target is gone (an empty candidate set goes through
+  // its ranking). Dry, so that the kills of the baseline stay what they are.
+  {
+    int vi = 0;
+    for (auto& kp : killPlugins()) {
+      Json::Value k = plug(kp, {{"cgroup", "work/*"}, {"recursive", vi % 2 ? "true" : "false"}, {"post_action_delay", "0"}, {"dry", "true"}});
+      if (kp == "kill_by_pressure") k["args"]["resource"] = "io";
+      cfg["rulesets"].append(rsOf("kv" + std::to_string(vi), vdet("dv"), {k, plug("vp_action", {{"id", "afterv" + std::to_string(vi)}})}));
+      vi++;
+    }
+  }
   cfg["prekill_hooks"].append(plug("dummy_prekill_hook", {{"cgroup", "/"}}));
   sc["config"] = cfg;
   sc["interval"] = 5;
@@ -206,6 +218,7 @@ Json::Value baseline(uint64_t seed) {
     scripts["detectors"]["d" + std::to_string(i)] = s;
   }
   scripts["detectors"]["ds"] = "C";
+  scripts["detectors"]["dv"] = "C";
   scripts["detectors"]["dsolo"] = Json::Value(Json::arrayValue);
   scripts["detectors"]["dsolo"].append("S");
   scripts["detectors"]["dsolo"].append("C");
